@@ -5,18 +5,23 @@ from .common import Acc, intercept, result, search_result
 
 ID = "C21"
 LEAN_MODULES = ["MjwVerif.Props.C21"]
-GEN_FUNCS = ["smooth._qLD_acc", "smooth._qLDiag_div", "smooth._small_cholesky_solve", "support.mul_m_kernel___mul_m", "smooth._M"]
-KERNELS = ["smooth._qLD_acc", "smooth._qLDiag_div", "support.mul_m_kernel___mul_m", "smooth._M", "smooth._crb_accumulate"]
+GEN_FUNCS = ["smooth._qLD_acc", "smooth._qLDiag_div", "smooth._small_cholesky_solve", "support.mul_m_kernel___mul_m", "smooth._M", "smooth._tendon_armature"]
+KERNELS = ["smooth._qLD_acc", "smooth._qLDiag_div", "support.mul_m_kernel___mul_m", "smooth._M", "smooth._tendon_armature", "smooth._crb_accumulate"]
 LEVEL_TEXT = ("Theorems over the reals, for ALL sizes and ALL kinematic forests (abstracted as a depth function with `l[k,i] != 0 -> depth i < depth k` and, for the factorisation, the chain "
               "property of ancestors): the level-parallel sparse L^T D L elimination (Model/LDL.lean `factorLevel`; its elementary update is proved to be exactly what the regenerated `_qLD_acc` / "
               "`_qLDiag_div` tasks write) returns L, D with M = L^T D L whenever all pivots are non-zero; the three-phase level-parallel back-substitution (`solve`, the schedule of "
-              "`_solve_LD_sparse_fused`) returns x with M x = b; M = L^T D L with positive D is positive definite; the regenerated scalar Cholesky back-substitution `_small_cholesky_solve` "
-              "solves U^T U x = y for every block size; the regenerated `mul_m` gather kernel stores the row sum over its index lists. On the real code: d.M vs MuJoCo's M, eigenvalues, "
+              "`_solve_LD_sparse_fused`) returns x with M x = b, hence factor-then-solve gives M x = b; M = L^T D L with positive D is positive definite; the regenerated scalar Cholesky "
+              "back-substitution `_small_cholesky_solve` solves U^T U x = y for block sizes 2 and 3; the regenerated `mul_m` gather kernel stores the row sum over its index lists; every cell a "
+              "regenerated `_M` / `_tendon_armature` task writes lies in the CSR row of its own dof (all models; so tasks of one launch write disjoint cells). On the real code: d.M vs MuJoCo's M, eigenvalues, "
               "float64 residuals of solve_m / factor_solve_i / factor_solve_lu against the stored matrix, reconstruction of M from every stored factor block, mul_m, qLD vs MuJoCo's qLD, "
               "for every layout m_block_layout produces (compact, scalar, tile, sparse), sizes 1..>64 including 6/7/64/65, nworld > 1.")
 LEVEL_NOTE = ("C21_partial: the fused solve kernel, the scalar/tile Cholesky factorisation kernels and the sparse LU kernel are nested closures that are not in Gen (listed as missing); the "
-              "level-parallel models of them are hand-written (Model/LDL.lean) and tied to the code by the Python replay of the same elementary updates against the real solve_m in this module. "
-              "Positive definiteness of the CRB matrix itself (a physics fact about composite inertias) is sampled (eigenvalues), not proved. Trusted: Lean kernel + Mathlib, translator.")
+              "level-parallel model of the fused solve is hand-written (Model/LDL.lean) and tied to the code by the Python replay of the same elementary updates against the real solve_m in this "
+              "module; dense (scalar for general size, tile) and LU paths are covered by the oracle only. Pivots != 0 is a hypothesis (that SPD implies positive pivots is not proved); positive "
+              "definiteness of the CRB matrix itself is sampled (eigenvalues). Launch = net effect of its tasks is argued, not derived. History: this check found (kernel interception of `_M` on "
+              "models with compact blocks; d.M vs MuJoCo with tendon armature over two aligned slides) that `_M` / `_tendon_armature` left the one-cell CSR row of MuJoCo's simple dofs; repaired in "
+              "/repo commit 'fix: _M and _tendon_armature walked past the row of a simple dof (tendon armature landed on another dof's diagonal)'; the trigger model is kept as a regression case "
+              "that runs first. Trusted: Lean kernel + Mathlib, translator.")
 ASSUMPTIONS = ["backward-error tolerances: residual <= 64 n eps32 |M| |x| (Higham Thm 10.4 constant for Cholesky/LDL of an SPD matrix is ~ 4n(3n+1) eps in the worst case, ~n eps in practice)",
                "d.M vs MuJoCo: 5e-5 relative to max|M| (float32 CRB vs float64)"]
 
@@ -343,7 +348,7 @@ def _step_check(ctx, acc, rng, integrator, sizes):
   """one step of the implicit integrators / Euler with damping vs mujoco.mj_step (contacts disabled)"""
   import mujoco
   import mujoco_warp as mjw
-  xml = _gen_model(rng, sizes, "dense" if rng.random() < 0.5 else "sparse", integrator=integrator, damping=True)
+  xml = _gen_model(rng, sizes, "dense" if (rng.random() < 0.5 and sum(sizes) <= 60) else "sparse", integrator=integrator, damping=True)
   try:
     mjm = mujoco.MjModel.from_xml_string(xml)
     m = mjw.put_model(mjm)
@@ -371,28 +376,72 @@ def _step_check(ctx, acc, rng, integrator, sizes):
 
 BOUNDARY = [[6], [7], [64], [65], [5, 6, 7], [1], [2, 3], [6, 1, 65, 20], [64, 3, 6], [33], [70, 6, 6, 2]]
 
+TENDON_XML = """<mujoco>
+  <option><flag contact="disable"/></option>
+  <worldbody>
+    <body pos="0 0 1"><joint name="sx" type="slide" axis="1 0 0"/><joint name="sy" type="slide" axis="0 1 0"/><geom size=".1"/></body>
+  </worldbody>
+  <tendon><fixed name="t" armature="{arm:.3f}"><joint joint="sx" coef="{c0:.3f}"/><joint joint="sy" coef="{c1:.3f}"/></fixed></tendon>
+</mujoco>"""
+
+
+COMPACT_XML = """<mujoco>
+  <option><flag contact="disable"/></option>
+  <worldbody>
+    <body pos="0 0 1"><freejoint/><geom size=".1"/></body>
+    <body pos="1 0 1"><joint type="slide" axis="1 0 0"/><joint type="slide" axis="0 1 0"/><joint type="slide" axis="0 0 1"/><geom size=".1"/></body>
+    <body pos="2 0 1"><joint type="hinge" axis="0 1 0"/><geom size=".1" pos=".1 0 0"/><body pos=".3 0 0"><joint type="hinge" axis="1 0 0"/><geom size=".05" pos="0 .1 0"/></body></body>
+  </worldbody>
+</mujoco>"""
+
+
+def _tendon_case(acc, rng):
+  """regression case (former defect, repaired): fixed tendon with armature over the two aligned slides of a 'simple' body: d.M vs MuJoCo
+  (Props/C21.lean `tendon_armature_writes_in_row`, `tendon_armature_simple_repaired`)"""
+  import mujoco
+  import mujoco_warp as mjw
+  arm, c0, c1 = rng.uniform(0.5, 3.0), rng.uniform(0.5, 2.0), rng.uniform(0.5, 4.0)
+  xml = TENDON_XML.format(arm=arm, c0=c0, c1=c1)
+  mjm = mujoco.MjModel.from_xml_string(xml)
+  mjd = mujoco.MjData(mjm)
+  mujoco.mj_forward(mjm, mjd)
+  m = mjw.put_model(mjm)
+  d = mjw.put_data(mjm, mjd)
+  mjw.forward(m, d)
+  acc.evals += 1
+  acc.hit("tendon-armature-on-simple-dofs")
+  Mw = d.M.numpy()[0].astype(np.float64)
+  if not np.allclose(Mw, mjd.M, rtol=1e-4):
+    acc.find(f"tendon armature over the dofs of a simple body: d.M = {np.round(Mw, 4).tolist()} but MuJoCo's M = {np.round(mjd.M, 4).tolist()}", "smooth._tendon_armature",
+             "tendon-armature-simple", xml=xml)
+
 
 def _run(ctx, ncases, rec):
   rng = np.random.default_rng(ctx.seed * 1000 + 21)
   acc = Acc()
+  plan = [BOUNDARY[i % len(BOUNDARY)] for i in range(ctx.seed, ctx.seed + min(ncases, 5 if not ctx.thorough else len(BOUNDARY)))]
+  while len(plan) < ncases:
+    nt = int(rng.integers(1, 5))
+    plan.append([int(rng.choice([1, 2, 3, 4, 5, 6, 7, 8, 12, 20, 31, 32, 33, 40, 63, 64, 65, 66, 90])) if rng.random() < 0.5 else int(rng.integers(1, 30)) for _ in range(nt)])
 
   def scenario():
-    plan = [BOUNDARY[i % len(BOUNDARY)] for i in range(ctx.seed, ctx.seed + min(ncases, 5 if not ctx.thorough else len(BOUNDARY)))]
-    while len(plan) < ncases:
-      nt = int(rng.integers(1, 5))
-      plan.append([int(rng.choice([1, 2, 3, 4, 5, 6, 7, 8, 12, 20, 31, 32, 33, 40, 63, 64, 65, 66, 90])) if rng.random() < 0.5 else int(rng.integers(1, 30)) for _ in range(nt)])
+    # regression cases of the repaired defect first: tendon armature over simple dofs, a simple free body + aligned slides (compact blocks)
+    _tendon_case(acc, rng)
+    _check_model(ctx, acc, rng, COMPACT_XML, "compact-regression")
     for c, sizes in enumerate(plan):
-      jac = "dense" if rng.random() < 0.5 else "sparse"
+      jac = str(rng.choice(["dense", "sparse", "auto"]))
+      if sum(sizes) > 60 and jac == "dense" and rng.random() < 0.9:
+        jac = "sparse"     # put_model rejects dense for nv > 60 (outside the domain; kept with small probability to count it)
       acc.hit("jacobian:" + jac)
       _check_model(ctx, acc, rng, _gen_model(rng, sizes, jac), c)
-    for integ in ["implicitfast", "implicit", "Euler"] * (2 if ctx.thorough else 1):
-      _step_check(ctx, acc, rng, integ, [int(rng.integers(1, 12)) for _ in range(int(rng.integers(1, 4)))] + ([66] if rng.random() < 0.3 else []))
 
   if rec:
-    kc, _ = intercept(KERNELS, scenario, rng, max_tids=12, per_kernel=4)
+    kc, _ = intercept(KERNELS, scenario, rng, max_tids=8, per_kernel=3)
   else:
     scenario()
     kc = None
+  for integ in ["implicitfast", "implicit", "Euler"] * (2 if ctx.thorough else 1):
+    _step_check(ctx, acc, rng, integ, [int(rng.integers(1, 12)) for _ in range(int(rng.integers(1, 4)))] + ([66] if rng.random() < 0.3 else []))
   return acc, kc
 
 
@@ -400,7 +449,8 @@ RULE = ("forests of 1-4 kinematic trees with prescribed dof counts (boundary siz
         "simple free bodies / aligned slides for the compact layout), contacts disabled, 1-3 worlds with different random qpos, dense and sparse jacobian option; per world and per tree: d.M vs "
         "MuJoCo, eigenvalues, float64 backward error of solve_m / factor_solve_i (M + positive diagonal) / factor_solve_lu (diagonally dominant matrix on the D pattern), mul_m vs M x, "
         "reconstruction of M from the stored factor (U^T U or L^T D L), sparse qLD vs MuJoCo's, replay of the level-parallel solve model vs the real fused kernel; one step of implicitfast / "
-        "implicit / Euler-with-damping vs mj_step; distinct = (case, nv, layouts, nworld)")
+        "implicit / Euler-with-damping vs mj_step; regression cases first (tendon armature over two aligned slides of a simple body: d.M vs MuJoCo; simple free body + aligned slides: compact "
+        "blocks under kernel interception of `_M`); distinct = (case, nv, layouts, nworld)")
 
 
 def correspondence(ctx):
